@@ -27,12 +27,16 @@ type HandlerSpec struct {
 	LastOnCtx   int      `json:"lx,omitempty"` // … when its context ends
 	IgnoreCtx   bool     `json:"ic,omitempty"` // scripted subscriber ends only through Close
 	SlowMs      int      `json:"sl,omitempty"` // every invocation takes this long (a duration below CloseTimeout)
+	Preload     int      `json:"pl,omitempty"` // messages the scripted subscriber has ready at the moment Subscribe is called
+	SubGate     bool     `json:"sg,omitempty"` // Subscribe blocks (a slow broker round trip) until the program's `subgo`
+	SubFail     int      `json:"sf,omitempty"` // the first n Subscribe calls fail ("broker temporarily unavailable")
 }
 
 // Scenario = handlers + a lifecycle program executed by the controller.
 //
 // Ops: add:h | run | wrun | rh | rhbg | wrh | wst:h | stop:h | wsd:h | cancel | close:n | wclose | wrr | run2 |
-// emit:h:n | wacc | whs:n | whe:n | park:<hook>[:arg] | wpark | rel | wev:<kind>[:n] | gate | pub:h:n | nap:ms
+// emit:h:n | wacc | whs:n | whe:n | park:<hook>[:arg] | wpark | rel | wev:<kind>[:n] | gate | pub:h:n | nap:ms |
+// plugclose (a plugin that calls Close while Run starts up) | subgo (let gated Subscribe calls return) | cst:h (is Started() closed?)
 type Scenario struct {
 	Handlers       []HandlerSpec `json:"h"`
 	Prog           []string      `json:"p"`
@@ -81,6 +85,9 @@ type run struct {
 	order  []int
 	invoke map[int]int // per handler: invocations so far
 	gate   chan struct{}
+
+	subGate chan struct{} // closed by `subgo`: gated Subscribe calls return
+	bound   time.Duration
 }
 
 func (r *run) newMsg(h int) (*message.Message, int) {
@@ -154,7 +161,7 @@ func Run(sc Scenario) *Result {
 	message.SetVerifHook(rec.Hook)
 	defer message.SetVerifHook(nil)
 	res := &Result{Sc: sc}
-	rn := &run{sc: sc, rec: rec, orig: map[int]*message.Message{}, seen: map[int]*message.Message{}, invoke: map[int]int{}, gate: make(chan struct{})}
+	rn := &run{sc: sc, rec: rec, orig: map[int]*message.Message{}, seen: map[int]*message.Message{}, invoke: map[int]int{}, gate: make(chan struct{}), subGate: make(chan struct{}), bound: bound}
 	gochanU := map[int]bool{}
 
 	router, err := message.NewRouter(message.RouterConfig{CloseTimeout: ct}, capLogger{rec})
@@ -309,7 +316,8 @@ func Run(sc Scenario) *Result {
 				sub = &LogSub{rec: rec, h: h, inner: ps}
 				pub = &LogPub{rec: rec, h: h, inner: ps, forward: false}
 			} else {
-				subs[h] = &ScriptSub{rec: rec, h: h, sc: rn, LastOnClose: spec.LastOnClose, LastOnCtx: spec.LastOnCtx, IgnoreCtx: spec.IgnoreCtx}
+				subs[h] = &ScriptSub{rec: rec, h: h, sc: rn, LastOnClose: spec.LastOnClose, LastOnCtx: spec.LastOnCtx, IgnoreCtx: spec.IgnoreCtx,
+					Preload: spec.Preload, SubGate: spec.SubGate, SubFail: spec.SubFail}
 				sub = subs[h]
 				fail := false
 				for _, o := range spec.Outcomes {
@@ -493,6 +501,41 @@ func Run(sc Scenario) *Result {
 			}
 		case "gate":
 			openGate()
+		case "subgo":
+			select {
+			case <-rn.subGate:
+			default:
+				rec.Log("sgo")
+				close(rn.subGate)
+			}
+		case "cst":
+			h := arg(1)
+			select {
+			case <-handles[h].Started():
+				rec.Log("st", itoa(h))
+			default:
+				// not started although it should be: the rest of the program would only run into the liveness bound
+				rec.Log("nst", itoa(h))
+				ok = false
+			}
+		case "plugclose":
+			router.AddPlugin(func(r *message.Router) error {
+				k := int(atomic.AddInt64(&nClose, 1)) - 1
+				rec.Log("cc", itoa(k))
+				res := "nil"
+				func() {
+					defer func() {
+						if rv := recover(); rv != nil {
+							res = "panic"
+						}
+					}()
+					if err := r.Close(); err != nil {
+						res = "err"
+					}
+				}()
+				rec.Log("cr", itoa(k), res, rn.settleSnapshot(gochanU))
+				return nil
+			})
 		case "nap":
 			time.Sleep(time.Duration(arg(1)) * time.Millisecond)
 		default:
@@ -503,6 +546,11 @@ func Run(sc Scenario) *Result {
 	// ---- wind down: nothing may stay parked or gated; every call must return; the router must get closed
 	rec.ReleaseAll()
 	openGate()
+	select {
+	case <-rn.subGate:
+	default:
+		close(rn.subGate)
+	}
 	waitWG(&closeWg, "Close call(s) did not return (wind-down)")
 	waitWG(&rhWg, "RunHandlers did not return (wind-down)")
 	waitWG(&emitWg, "emissions pending (wind-down)")
